@@ -348,6 +348,28 @@ func genC06(e *emitter, tier string, seed uint64) {
 				}
 			}
 		}
+		// ---- the same with signatures longer than 75 bytes (lax parsing accepts bytes behind the DER structure): their
+		//      canonical push is PUSHDATA1 / PUSHDATA2, and it is still the push that is removed from the script code
+		if sh == 0 {
+			k := keys[1]
+			tail := append(append([]byte{0x75}, rawPush(k.pubC)...), 0xac)
+			for _, ht := range []byte{0x01, 0x03, 0x81} {
+				good := signFor(tx, idx, tail, sats, ht, k, false)
+				for _, total := range []int{75, 76, 77, 90, 255, 256, 300} {
+					sig := append([]byte{}, good[:len(good)-1]...)
+					for len(sig) < total-1 {
+						sig = append(sig, 0x00)
+					}
+					sig = append(sig, ht)
+					for _, em := range [][]byte{minimalPush(sig), append([]byte{0x4d, byte(len(sig)), byte(len(sig) >> 8)}, sig...)} {
+						lock := append(append([]byte{}, em...), tail...)
+						for _, fl := range []int{0, fAfterGenesis, fDERSig, fNullFail} {
+							note("sig-embedded.long", ixExecTx(e, fl, minimalPush(sig), lock, tx, idx, sats))
+						}
+					}
+				}
+			}
+		}
 		// ---- public-key encodings (STRICTENC polices them at every key a signature is tried against, not only the first)
 		if sh == 0 {
 			forms := func(k keyPair) [][]byte {
